@@ -14,7 +14,8 @@ that exists right before the command and is newer than the buffer's sync point, 
 file -- and demands: a command without `!` leaves every protected file untouched (bytes, stamp, no open/write/close on it); an
 explicit write without `!` of a protected own file is not reported as success and does not quit; whatever the editor did write
 holds exactly the buffer's lines if the command went through; the editor is not gone without `!` while an edited buffer is not in
-its file.  The model side is request `aw` of the driver (coq/IoAwDefs.v run): current path, alive, files after every step.
+its file.  The model side is request `aw` of the driver (coq/IoAwDefs.v step): current path, alive, files after every step, for
+every session (ex.c refreshes the remembered stamp after every successful save since 37c81b2: nothing depends on the second the editor writes in).
 """
 import os, re, shutil, subprocess, time
 import vlib
@@ -176,7 +177,7 @@ def a_judge(case, ob):
     bufs = {}
 
     def load(n, sn):
-        bufs[n] = {'text': sn[n][1] if sn.get(n) else b'', 'dirty': False, 'sync': sn.get(n), 'aw_ok': None}
+        bufs[n] = {'text': sn[n][1] if sn.get(n) else b'', 'dirty': False, 'sync': sn.get(n)}
     cur = prev['cur']
     load(cur, prev)
 
@@ -215,19 +216,17 @@ def a_judge(case, ob):
             tr['protected'][n] = why
             if bang:
                 continue
-            kf = stale_autowrite(bufs[n], prev[n])
-            tr['kf'] = kf
             what = ('a write without ! replaced a file that ' if explicit and n == cur else
                     '`%s` (no !) replaced the file of the modified buffer %s that ' % (st[1], n))
             if post[n] is None or post[n][1] != prev[n][1]:
-                bad.append((what + why, kf))
+                bad.append((what + why, None))
             elif post[n][0] != prev[n][0] or any(c['name'] == n for c in calls):
-                bad.append(('`%s` (no !) had to leave the file of buffer %s alone (it %s) but opened or touched it' % (st[1], n, why), kf))
+                bad.append(('`%s` (no !) had to leave the file of buffer %s alone (it %s) but opened or touched it' % (st[1], n, why), None))
         if explicit and not bang and cur in tr['protected'] and not (kind == 'x' and not bufs[cur]['dirty']):
             tr['must_refuse'] = True
             if ob['cls'].get(k) == 'ok' or gone:
                 bad.append(('a write that had to be refused (the file %s) was reported as success (message class %s, quit=%s)'
-                            % (tr['protected'][cur], ob['cls'].get(k), gone), stale_autowrite(bufs[cur], prev[cur])))
+                            % (tr['protected'][cur], ob['cls'].get(k), gone), None))
         # what the editor wrote during the step
         went = gone or (kind == 'w' and ob['cls'].get(k) == 'ok') or (kind in ('e', 'b', 'n') and sn is not None and sn['cur'] != cur) or (kind == '!' and ob['ran'].get(k))
         for n in sorted(bufs):
@@ -235,8 +234,6 @@ def a_judge(case, ob):
             if not cs:
                 continue
             if not any(c['err'] for c in cs) and post[n] is not None and post[n][1] == bufs[n]['text']:
-                if not (explicit and n == cur):
-                    bufs[n]['aw_ok'] = (bufs[n]['sync'], post[n])
                 bufs[n]['sync'] = post[n]
                 bufs[n]['dirty'] = False
             elif went and not any(c['err'] for c in cs) and (n != cur or kind != 'w' or arg in ('', '%')):
@@ -266,18 +263,6 @@ def a_judge(case, ob):
         cur = sn['cur']
         prev = sn
     return bad, trace
-
-
-def stale_autowrite(b, now):
-    """classifier of KF-AW-STALE-STAMP: the buffer was autowritten (or saved by the xa loop) successfully, the file's stamp before
-    that save was LATER than the stamp the save gave it (a file dated in the editor's future), and the file is now stamped between the two:
-    ex.c keeps the old remembered stamp after such a save, so the guard compares with a stamp from the future"""
-    if not b.get('aw_ok') or now is None:
-        return None
-    before, after = b['aw_ok']
-    if before is not None and after is not None and before[0] > after[0] and after[0] < now[0] <= before[0]:
-        return 'KF-AW-STALE-STAMP'
-    return None
 
 
 # ---------------------------------------------------------------------------------------------- generator
@@ -514,19 +499,6 @@ def a_compare(case, ob, mline):
     return diffs
 
 
-def a_ambiguous(ob):
-    """the editor wrote one file in two different seconds of this session: whether its second save is refused ("file changed", the
-    remembered stamp is the first second's) depends on the clock; the model writes everything at one instant"""
-    lo, hi = ob['base'] - 2, ob['base'] + 600
-    seen = {n: set() for n in AN}
-    for sn in list(ob['snaps'].values()) + [ob['final']]:
-        if sn:
-            for n in AN:
-                if sn.get(n) and lo <= sn[n][0] <= hi:
-                    seen[n].add(sn[n][0])
-    return any(len(v) > 1 for v in seen.values())
-
-
 def a_quick_sample(cases, rng, per=9):
     """stratified: the same quota from every (option, kind of history, write command) stratum"""
     strata = {}
@@ -570,7 +542,7 @@ def run_aw(ctx, vi, model, awork):
         if rc != 0 or len(out_m) != len(reqs):
             res.disagree({'what': 'model driver failed on the autowrite stream: rc=%d, %d answers for %d requests' % (rc, len(out_m), len(reqs)), 'stderr': err[-800:]})
             out_m = None
-    nref = nprot = ncmd = ncand = namb = 0
+    nref = nprot = ncmd = 0
     for i, (case, ob) in enumerate(zip(awork, obs)):
         res.evaluations += 1
         res.count('autowrite stream: ' + case['tag'].split(',')[0].split(':')[0])
@@ -581,13 +553,7 @@ def run_aw(ctx, vi, model, awork):
             nprot += bool(t['protected'])
             nref += bool(t['must_refuse'])
             res.count('autowrite stream cmd %s%s' % (t['cmd'].split(' ')[0], ' (reference: must be refused)' if t['must_refuse'] else ''))
-        real = [b for b in bad if b[1] is None]
-        if bad and not real:
-            # every complaint has the root cause of the finding candidate KF-AW-STALE-STAMP (see design.d/C03.md, fixes/C03-autowrite-bookkeeping.patch)
-            ncand += 1
-            res.violation({'what': bad[0][0], 'input': {'case': case}, 'script': a_script(case).decode('latin-1')}, kf='KF-AW-STALE-STAMP') \
-                if 'KF-AW-STALE-STAMP' in {k['id'] for k in vlib.known_findings(res.pid)} else None
-            continue
+        real = bad
         if real:
             res.violation({'what': real[0][0], 'all': [b[0] for b in bad], 'input': {'case': case},
                            'expected': {'reference, per command step': {str(k): {'cmd': t['cmd'], 'current buffer': t['cur'], 'protected files': t['protected'],
@@ -599,9 +565,7 @@ def run_aw(ctx, vi, model, awork):
                                         'open/write/close calls of the editor': [(c['op'], c['name']) for c in ob['calls'] if c['i'] is not None][:24]},
                            'script': a_script(case).decode('latin-1')})
             continue
-        if out_m is not None and a_ambiguous(ob):
-            namb += 1
-        elif out_m is not None:
+        if out_m is not None:
             diffs = a_compare(case, ob, out_m[i])
             if diffs:
                 res.disagree({'what': 'model and editor differ (autowrite stream): ' + '; '.join(diffs), 'input': {'case': case}, 'model': out_m[i][:400],
@@ -610,8 +574,6 @@ def run_aw(ctx, vi, model, awork):
         if i % 199 == 0:
             res.sample({'case': case, 'reference': {str(k): {'cmd': t['cmd'], 'protected': t['protected'], 'must_refuse': t['must_refuse'], 'class': t['class'], 'gone': t['gone']} for k, t in trace.items()}})
     res.extra['autowrite_stream_sessions'] = len(awork)
-    res.extra['autowrite_stream_clock_dependent_skipped_in_comparison'] = namb
     res.extra['autowrite_stream_command_steps_judged'] = ncmd
     res.extra['autowrite_stream_steps_with_a_protected_file'] = nprot
     res.extra['autowrite_stream_writes_the_reference_says_must_be_refused'] = nref
-    res.extra['autowrite_stream_sessions_with_finding_candidate_KF-AW-STALE-STAMP_only'] = ncand
